@@ -39,6 +39,10 @@ pub struct WorldSpec {
     /// which online monitors SimTarget evaluates: "c15", "c16"
     #[serde(default)]
     pub monitors: Vec<String>,
+    /// fresh coordinator + node threads for this world (hash seeds are then knobs of the world);
+    /// otherwise the session's long-lived threads are reused
+    #[serde(default)]
+    pub fresh_threads: bool,
 }
 
 #[derive(Clone, Debug, Serialize, Deserialize)]
@@ -270,7 +274,7 @@ pub struct ReplayFile {
     pub session: SessionSpec,
     /// for reference-arm judges: a second session to compare with (e.g. golden, skip reference)
     #[serde(default)]
-    pub reference: Option<SessionSpec>,
+    pub reference: Vec<SessionSpec>,
     #[serde(default)]
     pub note: String,
 }
